@@ -3,7 +3,7 @@
 import ast
 import struct
 
-from ..model import norm, head, walk_no_nested, AnalysisError, FuncInfo, enclosing_stmt, ancestors
+from ..model import norm, head, walk_no_nested, AnalysisError, FuncInfo, enclosing_stmt, ancestors, live
 from ..cfg import cfg_of
 from ..q import (find, match, const, try_const, only_via, tests, stmt_nodes, one, fmt, cfg_node_for, linear, calls,
                  lower_bound_at, edges_where)
@@ -370,7 +370,7 @@ def rule_crc(report, prog):
     # the xor is conditional on the shifted-out bit and happens after the shift
     inner = [x for x in ast.walk(calc.node) if isinstance(x, ast.For) and norm(x.iter) == 'range(8)']
     if inner:
-        seq = [norm(s) if not isinstance(s, ast.If) else 'if %s: %s' % (norm(s.test), '; '.join(norm(y) for y in s.body)) for s in inner[0].body]
+        seq = [norm(s) if not isinstance(s, ast.If) else 'if %s: %s' % (norm(s.test), '; '.join(norm(y) for y in live(s.body))) for s in live(inner[0].body)]
         report.check(seq == ['bit = (reg ^ octet >> pos & 1) & 1', 'reg = reg >> 1', 'if bit: reg = reg ^ 33800'], 'C14-R5',
                      key(calc.qname, 'bit step: feedback bit, shift, conditional xor'), calc.loc(), 'CRC bit step changed: %s' % seq)
     dev = prog.cls(DEV + '.Device')
